@@ -1,14 +1,354 @@
 (* MmrIndexProofs.v - lemmas for property C16 about the REGENERATED straight-line MMR index functions
-   (gen/MmrIndexGen.v), the hand-written loop models (model/MmrIndex.v) and the forest specification
-   (spec/Forest.v). *)
+   (gen/MmrIndexGen.v) and the forest specification (spec/Forest.v).  The loops of model/MmrIndex.v are in
+   MmrIndexLoops.v. *)
 From Coq Require Import ZArith Bool Lia List.
-From TF Require Import Word MmrIndexGen MmrIndex Forest.
+From TF Require Import Word MmrIndexGen MmrIndex Forest MmrIndexBits.
 Import ListNotations.
 Open Scope Z_scope.
 Ltac Zify.zify_post_hook ::= Z.div_mod_to_equations.
 
-Lemma right_child_ok_all x : 1 <= x -> right_child_ok x = true.
-Proof. intros H. unfold right_child_ok, sub_ok. lia. Qed.
+(* ================================================================== sizes *)
+Lemma tleafs_pow h : tleafs h = 2 ^ Z.of_nat h.
+Proof.
+  induction h as [|h IH]; [reflexivity|].
+  cbn [tleafs]. rewrite IH, Nat2Z.inj_succ, <- Z.add_1_r, pow2_succ by lia. reflexivity.
+Qed.
 
-Lemma right_child_val x : 1 <= x < 2 ^ 64 -> right_child x = x - 1.
-Proof. intros H. unfold right_child, wsub. apply wrap_small. lia. Qed.
+Lemma tsize_tleafs h : tsize h = 2 * tleafs h - 1.
+Proof. induction h as [|h IH]; [reflexivity|]. cbn [tsize tleafs]. lia. Qed.
+
+Lemma tsize_pow h : tsize h = 2 ^ (Z.of_nat h + 1) - 1.
+Proof. rewrite tsize_tleafs, tleafs_pow, pow2_succ by lia. reflexivity. Qed.
+
+Lemma tleafs_pos h : 0 < tleafs h.
+Proof. rewrite tleafs_pow. apply pow2_pos. lia. Qed.
+
+Lemma tsize_pos h : 0 < tsize h.
+Proof. pose proof (tleafs_pos h). rewrite tsize_tleafs. lia. Qed.
+
+Lemma tleafs_S h : tleafs (S h) = 2 * tleafs h. Proof. reflexivity. Qed.
+Lemma tsize_S h : tsize (S h) = 2 * tsize h + 1. Proof. reflexivity. Qed.
+
+Lemma tleafs_mono a b : (a <= b)%nat -> tleafs a <= tleafs b.
+Proof. intros. rewrite !tleafs_pow. apply pow2_le. lia. Qed.
+
+Lemma tsize_mono a b : (a <= b)%nat -> tsize a <= tsize b.
+Proof. intros. pose proof (tleafs_mono a b H). rewrite !tsize_tleafs. lia. Qed.
+
+Lemma tsize_ge_height h : Z.of_nat h + 1 <= tsize h.
+Proof. induction h as [|h IH]; [cbn; lia|]. rewrite tsize_S, Nat2Z.inj_succ. lia. Qed.
+
+Lemma tleafs_63 : tleafs 63 = 2 ^ 63. Proof. reflexivity. Qed.
+Lemma tleafs_64 : tleafs 64 = 2 ^ 64. Proof. reflexivity. Qed.
+Lemma tsize_63 : tsize 63 = 2 ^ 64 - 1. Proof. reflexivity. Qed.
+
+Lemma tsize_lt64 h : (h <= 63)%nat -> tsize h < 2 ^ 64.
+Proof. intros. pose proof (tsize_mono h 63 H). rewrite tsize_63 in *. lia. Qed.
+
+Global Opaque tsize tleafs.
+
+(* ================================================================== Word helpers *)
+Ltac pow_lits :=
+  change (2 ^ 64) with 18446744073709551616 in *;
+  change (2 ^ 63) with 9223372036854775808 in *;
+  change (2 ^ 32) with 4294967296 in *;
+  change (2 ^ 128) with 340282366920938463463374607431768211456 in *.
+
+Lemma wshl64_1 k : 0 <= k < 64 -> wshl 64 1 k = 2 ^ k.
+Proof.
+  intros H. unfold wshl. rewrite Z.mul_1_l. apply wrap_small.
+  split; [apply Z.pow_nonneg; lia|apply pow2_lt; lia].
+Qed.
+
+Lemma shift_ok_64 k : 0 <= k < 64 -> shift_ok 64 k = true.
+Proof. intros. unfold shift_ok. lia. Qed.
+
+Lemma wadd32_small a b : 0 <= a -> 0 <= b -> a + b < 2 ^ 32 -> wadd 32 a b = a + b.
+Proof. intros. unfold wadd. apply wrap_small. lia. Qed.
+Lemma wsub32_small a b : 0 <= b <= a -> a < 2 ^ 32 -> wsub 32 a b = a - b.
+Proof. intros. unfold wsub. apply wrap_small. lia. Qed.
+Lemma wadd64_small a b : 0 <= a -> 0 <= b -> a + b < 2 ^ 64 -> wadd 64 a b = a + b.
+Proof. intros. unfold wadd. apply wrap_small. lia. Qed.
+Lemma wsub64_small a b : 0 <= b <= a -> a < 2 ^ 64 -> wsub 64 a b = a - b.
+Proof. intros. unfold wsub. apply wrap_small. lia. Qed.
+
+(* ================================================================== children and siblings: values *)
+Lemma left_child_val x h : 0 <= h < 64 -> 2 ^ h <= x < 2 ^ 64 ->
+  left_child_ok x h = true /\ left_child x h = x - 2 ^ h.
+Proof.
+  intros Hh Hx. unfold left_child_ok, left_child. rewrite wshl64_1, shift_ok_64 by lia.
+  pose proof (pow2_pos h ltac:(lia)).
+  rewrite wsub64_small by lia. unfold sub_ok. split; [lia|reflexivity].
+Qed.
+
+Lemma right_child_val x : 1 <= x < 2 ^ 64 -> right_child_ok x = true /\ right_child x = x - 1.
+Proof.
+  intros H. unfold right_child_ok, right_child, sub_ok. rewrite wsub64_small by lia. split; [lia|reflexivity].
+Qed.
+
+Lemma left_sibling_val x h : 0 <= h < 63 -> 2 ^ (h + 1) <= x < 2 ^ 64 ->
+  left_sibling_ok x h = true /\ left_sibling x h = x - 2 ^ (h + 1) + 1.
+Proof.
+  intros Hh Hx. unfold left_sibling_ok, left_sibling.
+  assert (E : wadd 32 h 1 = h + 1) by (apply wadd32_small; pow_lits; lia).
+  rewrite E. rewrite wshl64_1, shift_ok_64 by lia.
+  pose proof (pow2_pos (h + 1) ltac:(lia)).
+  rewrite wsub64_small by lia. rewrite wadd64_small by lia.
+  unfold add_ok, sub_ok. pow_lits. split; [lia|reflexivity].
+Qed.
+
+Lemma right_sibling_val x h : 0 <= h < 63 -> 0 <= x -> x + 2 ^ (h + 1) < 2 ^ 64 ->
+  right_sibling_ok x h = true /\ right_sibling x h = x + 2 ^ (h + 1) - 1.
+Proof.
+  intros Hh Hx Hs. unfold right_sibling_ok, right_sibling.
+  assert (E : wadd 32 h 1 = h + 1) by (apply wadd32_small; pow_lits; lia).
+  rewrite E. rewrite wshl64_1, shift_ok_64 by lia.
+  pose proof (pow2_pos (h + 1) ltac:(lia)).
+  rewrite wadd64_small by lia. rewrite wsub64_small by lia.
+  unfold add_ok, sub_ok. pow_lits. split; [lia|reflexivity].
+Qed.
+
+(* ================================================================== leaf index -> node index, node count *)
+Lemma leaf_index_to_node_index_val i : 0 <= i < 2 ^ 63 ->
+  leaf_index_to_node_index_ok i = true /\ leaf_index_to_node_index i = 2 * i - count_ones i + 1.
+Proof.
+  intros Hi. unfold leaf_index_to_node_index_ok, leaf_index_to_node_index. cbv zeta.
+  pose proof (count_ones_nonneg i). pose proof (count_ones_le_self i ltac:(lia)).
+  unfold mul_ok, sub_ok, add_ok, wmul, wsub, wadd, wrap. pow_lits.
+  rewrite !Z.mod_small by (rewrite ?Z.mod_small by lia; lia).
+  split; [lia|reflexivity].
+Qed.
+
+Lemma num_leafs_to_num_nodes_val n : 0 <= n < 2 ^ 63 ->
+  num_leafs_to_num_nodes_ok n = true /\ num_leafs_to_num_nodes n = 2 * n - count_ones n.
+Proof.
+  intros Hi. unfold num_leafs_to_num_nodes_ok, num_leafs_to_num_nodes. cbv zeta.
+  pose proof (count_ones_nonneg n). pose proof (count_ones_le_self n ltac:(lia)).
+  unfold mul_ok, sub_ok, wmul, wsub, wrap. pow_lits.
+  rewrite !Z.mod_small by (rewrite ?Z.mod_small by lia; lia).
+  split; [lia|reflexivity].
+Qed.
+
+(* ================================================================== leftmost ancestor *)
+Lemma leftmost_ancestor_val x : 1 <= x < 2 ^ 64 ->
+  leftmost_ancestor_ok x = true /\
+  exists H : nat, (H <= 63)%nat /\ leftmost_ancestor x = (tsize H, Z.of_nat H) /\ tleafs H <= x <= tsize H.
+Proof.
+  intros Hx. unfold leftmost_ancestor_ok, leftmost_ancestor, leading_zeros, bitlen.
+  destruct (Z.eqb_spec x 0) as [->|_]; [lia|].
+  pose proof (Z.log2_spec x ltac:(lia)) as Hl. pose proof (Z.log2_nonneg x) as Hn.
+  assert (Hl63 : Z.log2 x < 64) by (apply Z.log2_lt_pow2; lia).
+  destruct (Z.eqb_spec (64 - (Z.log2 x + 1)) 0) as [E|E].
+  - split; [reflexivity|]. exists 63%nat. split; [lia|]. split; [reflexivity|].
+    assert (Z.log2 x = 63) as E2 by lia. rewrite E2 in Hl. rewrite tleafs_63, tsize_63. change (Z.succ 63) with 64 in Hl. lia.
+  - assert (E1 : wsub 32 64 (64 - (Z.log2 x + 1)) = Z.log2 x + 1) by (rewrite wsub32_small by (pow_lits; lia); lia).
+    rewrite E1. assert (E2 : wsub 32 (Z.log2 x + 1) 1 = Z.log2 x) by (rewrite wsub32_small by (pow_lits; lia); lia).
+    rewrite E2. cbv zeta.
+    assert (E3 : wadd 32 (Z.log2 x) 1 = Z.log2 x + 1) by (apply wadd32_small; pow_lits; lia).
+    rewrite E3. rewrite wshl64_1, shift_ok_64 by lia.
+    pose proof (pow2_pos (Z.log2 x + 1) ltac:(lia)) as Hp.
+    pose proof (pow2_lt (Z.log2 x + 1) 64 ltac:(lia)) as Hq.
+    rewrite wsub64_small by lia.
+    split; [unfold sub_ok, add_ok; pow_lits; lia|].
+    exists (Z.to_nat (Z.log2 x)). split; [lia|].
+    rewrite tsize_pow, tleafs_pow, Z2Nat.id by lia. split; [reflexivity|].
+    change (Z.succ (Z.log2 x)) with (Z.log2 x + 1) in Hl. lia.
+Qed.
+
+(* ================================================================== the forest: leafs *)
+(* number of nodes of the MMR with n leafs, as plain arithmetic *)
+Definition ncount (n : Z) : Z := 2 * n - count_ones n.
+
+Lemma ncount_0 : ncount 0 = 0. Proof. reflexivity. Qed.
+
+Lemma ncount_nonneg n : 0 <= n -> 0 <= ncount n.
+Proof. intros. unfold ncount. pose proof (count_ones_le_self n H). lia. Qed.
+
+Lemma ncount_split k n : tleafs k <= n < 2 * tleafs k -> ncount n = tsize k + ncount (n - tleafs k).
+Proof.
+  intros H. unfold ncount. rewrite tsize_tleafs. rewrite tleafs_pow in *.
+  replace n with (2 ^ Z.of_nat k + (n - 2 ^ Z.of_nat k)) at 2 by lia.
+  rewrite count_ones_pow2_add by lia. lia.
+Qed.
+
+Lemma ncount_lt_tsize k n : 0 <= n < tleafs k -> ncount n < tsize k.
+Proof.
+  intros H. unfold ncount. rewrite tsize_tleafs. pose proof (count_ones_nonneg n).
+  destruct (Z.eq_dec n 0) as [->|]; [cbn [count_ones]; lia|].
+  pose proof (count_ones_pos n ltac:(lia)). lia.
+Qed.
+
+Lemma tleafs_mult h k : (h < k)%nat -> tleafs k = tleafs (k - S h) * (2 * tleafs h).
+Proof.
+  intros H. rewrite <- tleafs_S. rewrite !tleafs_pow. rewrite <- Z.pow_add_r by lia. f_equal. lia.
+Qed.
+
+Lemma t_leaf_node_val h : forall o l i, l <= i < l + tleafs h ->
+  t_leaf_node h o l i = o + ncount (i - l) + 1.
+Proof.
+  induction h as [|h IH]; intros o l i Hi.
+  - change (tleafs 0) with 1 in Hi. assert (i - l = 0) as -> by lia. cbn [t_leaf_node]. rewrite ncount_0. lia.
+  - cbn [t_leaf_node]. rewrite tleafs_S in Hi. pose proof (tleafs_pos h).
+    destruct (Z.ltb_spec i (l + tleafs h)).
+    + apply IH. lia.
+    + rewrite IH by lia. rewrite (ncount_split h (i - l)) by lia.
+      replace (i - (l + tleafs h)) with (i - l - tleafs h) by lia. lia.
+Qed.
+
+Lemma t_leaf_mt_val h : forall l i m, l <= i < l + tleafs h ->
+  t_leaf_mt h l i m = m * tleafs h + (i - l).
+Proof.
+  induction h as [|h IH]; intros l i m Hi.
+  - change (tleafs 0) with 1 in *. cbn [t_leaf_mt]. lia.
+  - cbn [t_leaf_mt]. rewrite tleafs_S in *. pose proof (tleafs_pos h).
+    destruct (Z.ltb_spec i (l + tleafs h)).
+    + rewrite IH by lia. lia.
+    + rewrite IH by lia. lia.
+Qed.
+
+Lemma forest_from_zero k : forall o l, forest_from k 0 o l = [].
+Proof.
+  induction k as [|k IH]; intros o l; [reflexivity|].
+  cbn [forest_from]. pose proof (tleafs_pos k). destruct (Z.leb_spec (tleafs k) 0); [lia|apply IH].
+Qed.
+
+(* the tree of the forest that holds leaf i: a = number of leafs in the trees before it *)
+Lemma find_leaf_spec k : forall n o l i pk,
+  0 <= n < tleafs k -> l <= i < l + n ->
+  exists (h : nat) a q,
+    f_find_leaf (forest_from k n o l) i pk = Some (pk + count_ones a, PTree h (o + ncount a) (l + a)) /\
+    (h < k)%nat /\ 0 <= q /\ a = q * (2 * tleafs h) /\ a + tleafs h <= n < a + 2 * tleafs h /\
+    a <= i - l < a + tleafs h.
+Proof.
+  induction k as [|k IH]; intros n o l i pk Hn Hi.
+  - change (tleafs 0) with 1 in Hn. lia.
+  - cbn [forest_from]. rewrite tleafs_S in Hn. pose proof (tleafs_pos k) as Hk.
+    destruct (Z.leb_spec (tleafs k) n) as [Hb|Hb].
+    + cbn [f_find_leaf]. unfold pt_has_leaf. cbn [pt_first_leaf pt_height].
+      destruct (Z.leb_spec l i) as [_|]; [|lia]. cbn [andb].
+      destruct (Z.ltb_spec i (l + tleafs k)) as [Hlt|Hge].
+      * exists k, 0, 0. cbn [count_ones]. rewrite ncount_0, !Z.add_0_r. split; [reflexivity|]. lia.
+      * destruct (IH (n - tleafs k) (o + tsize k) (l + tleafs k) i (pk + 1) ltac:(lia) ltac:(lia))
+          as (h & a & q & E & Hh & Hq & Ea & Hna & Hia).
+        exists h, (tleafs k + a), (tleafs (k - S h) + q).
+        assert (Ha : 0 <= a < tleafs k) by (pose proof (tleafs_pos h); nia).
+        assert (C : count_ones (tleafs k + a) = 1 + count_ones a).
+        { rewrite tleafs_pow in *. apply count_ones_pow2_add. lia. }
+        assert (N : ncount (tleafs k + a) = tsize k + ncount a).
+        { rewrite (ncount_split k) by lia. f_equal. f_equal. lia. }
+        rewrite E, C, N. split; [f_equal; f_equal; [lia|f_equal; lia]|].
+        split; [lia|]. split; [pose proof (tleafs_pos (k - S h)); lia|].
+        split; [rewrite (tleafs_mult h k) by lia; lia|]. lia.
+    + destruct (IH n o l i pk ltac:(lia) ltac:(lia)) as (h & a & q & E & Hh & R).
+      exists h, a, q. split; [exact E|]. split; [lia|exact R].
+Qed.
+
+(* popcount of a leaf index inside its tree *)
+Lemma count_ones_tree_split h q i a : 0 <= q -> a = q * (2 * tleafs h) -> a <= i < a + tleafs h ->
+  count_ones i = count_ones a + count_ones (i - a).
+Proof.
+  intros Hq Ea Hi. rewrite <- tleafs_S in Ea. rewrite tleafs_pow in *.
+  pose proof (pow2_pos (Z.of_nat h) ltac:(lia)).
+  assert (2 ^ Z.of_nat h < 2 ^ Z.of_nat (S h)) by (apply pow2_lt; lia).
+  replace i with (q * 2 ^ Z.of_nat (S h) + (i - a)) at 1 by lia.
+  rewrite count_ones_add_high by lia. rewrite Ea, count_ones_mul_pow2 by lia. reflexivity.
+Qed.
+
+Lemma ncount_tree_split h q i a : 0 <= q -> a = q * (2 * tleafs h) -> a <= i < a + tleafs h ->
+  ncount i = ncount a + ncount (i - a).
+Proof. intros. unfold ncount. rewrite (count_ones_tree_split h q i a) by assumption. lia. Qed.
+
+Theorem spec_leaf_index_to_node_index_correct n i : 0 <= i < n -> n < 2 ^ 64 -> i < 2 ^ 63 ->
+  spec_leaf_index_to_node_index n i = Some (leaf_index_to_node_index i).
+Proof.
+  intros Hi Hn Hi63. unfold spec_leaf_index_to_node_index, forest.
+  destruct (find_leaf_spec 64 n 0 0 i 0 ltac:(rewrite tleafs_64; lia) ltac:(lia))
+    as (h & a & q & E & Hh & Hq & Ea & Hna & Hia).
+  rewrite E. cbn [pt_height pt_offset pt_first_leaf].
+  rewrite t_leaf_node_val by lia.
+  destruct (leaf_index_to_node_index_val i ltac:(lia)) as [_ ->].
+  rewrite Z.sub_0_r in Hia. fold (ncount i). rewrite (ncount_tree_split h q i a) by lia.
+  reflexivity.
+Qed.
+
+(* ================================================================== Merkle tree index and peak index *)
+Theorem leaf_index_to_mt_index_and_peak_index_correct n i : 0 <= i < n -> n < 2 ^ 64 ->
+  leaf_index_to_mt_index_and_peak_index_ok i n = true /\
+  spec_mt_index_and_peak_index n i = Some (leaf_index_to_mt_index_and_peak_index i n).
+Proof.
+  intros Hi Hn. unfold spec_mt_index_and_peak_index, forest.
+  destruct (find_leaf_spec 64 n 0 0 i 0 ltac:(rewrite tleafs_64; lia) ltac:(lia))
+    as (h & a & q & E & Hh & Hq & Ea & Hna & Hia).
+  rewrite E. cbn [pt_height pt_offset pt_first_leaf]. rewrite t_leaf_mt_val by lia.
+  rewrite Z.sub_0_r in Hia. rewrite !Z.add_0_l.
+  rewrite <- tleafs_S in Ea. rewrite tleafs_pow in *.
+  rewrite Nat2Z.inj_succ, <- Z.add_1_r in Ea.
+  assert (Hh' : 0 <= Z.of_nat h < 64) by lia.
+  set (hz := Z.of_nat h) in *.
+  pose proof (pow2_pos hz ltac:(lia)) as Hp.
+  assert (Hp64 : 2 ^ hz < 2 ^ 64) by (apply pow2_lt; lia).
+  rewrite <- (pow2_succ hz) in Hna by lia.
+  destruct (tree_position_bits hz q a i n ltac:(lia) Hq Ea Hia Hna) as (D1 & D2 & B1 & B2 & M1 & M2 & M3).
+  destruct (log2_lxor_char hz i n ltac:(lia) ltac:(lia) ltac:(lia) ltac:(congruence) B1 B2) as [X0 XL].
+  pose proof (pow2_succ hz ltac:(lia)) as Hps.
+  assert (Hp65 : 2 ^ (hz + 1) <= 2 ^ 64) by (apply pow2_le; lia).
+  (* popcounts *)
+  assert (C1 : count_ones n = count_ones q + 1 + count_ones (n - a - 2 ^ hz)).
+  { rewrite (count_ones_split (S h) n) by lia. rewrite Nat2Z.inj_succ, <- Z.add_1_r. fold hz.
+    rewrite D2, M2.
+    assert (R : n - a = 2 ^ Z.of_nat h + (n - a - 2 ^ hz)) by (unfold hz; lia). rewrite R at 1.
+    rewrite count_ones_pow2_add by (fold hz; lia). lia. }
+  assert (C2 : count_ones a = count_ones q).
+  { rewrite Ea. replace (hz + 1) with (Z.of_nat (S h)) by (unfold hz; lia). apply count_ones_mul_pow2. exact Hq. }
+  pose proof (count_ones_nonneg q) as Cq. pose proof (count_ones_nonneg (n - a - 2 ^ hz)) as Cr.
+  pose proof (count_ones_lt64 n ltac:(lia)) as Cn.
+  unfold leaf_index_to_mt_index_and_peak_index_ok, leaf_index_to_mt_index_and_peak_index. cbv zeta.
+  unfold ilog2. rewrite XL.
+  assert (E2 : wrap 64 (2 ^ hz) = 2 ^ hz) by (apply wrap_small; lia). rewrite E2.
+  assert (E3 : wsub 64 (2 ^ hz) 1 = 2 ^ hz - 1) by (apply wsub64_small; lia). rewrite E3.
+  rewrite land_ones_mod by lia. rewrite M1.
+  rewrite (Z.land_comm n), land_ones_mod by lia. rewrite M3.
+  assert (E6 : wadd 64 (i - a) (2 ^ hz) = i - a + 2 ^ hz) by (apply wadd64_small; lia). rewrite E6.
+  assert (E7 : wsub 32 (count_ones n) (count_ones (n - a - 2 ^ hz)) = count_ones q + 1)
+    by (rewrite wsub32_small by (pow_lits; lia); lia). rewrite E7.
+  assert (E8 : wsub 32 (count_ones q + 1) 1 = count_ones q) by (rewrite wsub32_small by (pow_lits; lia); lia).
+  rewrite E8. rewrite C2.
+  split.
+  - unfold sub_ok, add_ok.
+    destruct (Z.ltb_spec i n); [|lia]. destruct (Z.ltb_spec 0 (Z.lxor i n)); [|lia].
+    destruct (Z.ltb_spec (2 ^ hz) (2 ^ 64)); [|lia]. cbn [andb]. pow_lits. lia.
+  - f_equal. f_equal. lia.
+Qed.
+
+(* ================================================================== node count *)
+Lemma forest_from_node_count k : forall n o l, 0 <= n < tleafs k ->
+  fold_right (fun t acc => tsize (pt_height t) + acc) 0 (forest_from k n o l) = ncount n.
+Proof.
+  induction k as [|k IH]; intros n o l Hn.
+  - change (tleafs 0) with 1 in Hn. assert (n = 0) as -> by lia. reflexivity.
+  - cbn [forest_from]. rewrite tleafs_S in Hn.
+    destruct (Z.leb_spec (tleafs k) n).
+    + cbn [fold_right pt_height]. rewrite IH by lia. rewrite (ncount_split k n) by lia. reflexivity.
+    + apply IH. lia.
+Qed.
+
+Lemma forest_from_leaf_count k : forall n o l, 0 <= n < tleafs k ->
+  fold_right (fun t acc => tleafs (pt_height t) + acc) 0 (forest_from k n o l) = n.
+Proof.
+  induction k as [|k IH]; intros n o l Hn.
+  - change (tleafs 0) with 1 in Hn. assert (n = 0) as -> by lia. reflexivity.
+  - cbn [forest_from]. rewrite tleafs_S in Hn.
+    destruct (Z.leb_spec (tleafs k) n).
+    + cbn [fold_right pt_height]. rewrite IH by lia. lia.
+    + apply IH. lia.
+Qed.
+
+Theorem spec_node_count_correct n : 0 <= n < 2 ^ 63 ->
+  num_leafs_to_num_nodes_ok n = true /\ spec_node_count n = num_leafs_to_num_nodes n.
+Proof.
+  intros Hn. destruct (num_leafs_to_num_nodes_val n Hn) as [-> ->]. split; [reflexivity|].
+  unfold spec_node_count, forest. apply forest_from_node_count. rewrite tleafs_64. lia.
+Qed.
+
+Theorem spec_leaf_count_correct n : 0 <= n < 2 ^ 64 -> spec_leaf_count_of_forest n = n.
+Proof. intros. unfold spec_leaf_count_of_forest, forest. apply forest_from_leaf_count. rewrite tleafs_64. lia. Qed.
